@@ -26,10 +26,14 @@ func (a *ad) Reset(s json.RawMessage) error {
 func (a *ad) Apply(op core.Op) (interface{}, error) {
 	switch op.N {
 	case "Append":
-		a.f.Append(core.ArgInts(op, 0)...)
+		arg := spare(core.ArgInts(op, 0))
+		a.f.Append(arg...)
+		scribble(arg)
 		return []int{}, nil
 	case "Prepend":
-		a.f.Prepend(core.ArgInts(op, 0)...)
+		arg := spare(core.ArgInts(op, 0))
+		a.f.Prepend(arg...)
+		scribble(arg)
 		return []int{}, nil
 	case "Get":
 		v, ok := a.f.Get(core.ArgInt(op, 0))
@@ -52,6 +56,21 @@ func (a *ad) Apply(op core.Op) (interface{}, error) {
 		return []interface{}{out}, nil
 	}
 	panic("unknown op " + op.N)
+}
+
+// spare gives the argument slice room to spare (as a caller's reused scratch buffer has); scribble is the caller
+// reusing that buffer afterwards: a FlexSlice that kept the caller's array as its own shows it at once
+func spare(x []int) []int {
+	buf := make([]int, len(x), len(x)+96)
+	copy(buf, x)
+	return buf
+}
+
+func scribble(x []int) {
+	x = x[:cap(x)]
+	for i := range x {
+		x[i] = -7777
+	}
 }
 
 func (a *ad) Obs() interface{} {
